@@ -21,12 +21,14 @@ def run_one(m, with_tests=False, tier='quick'):
     try:
         dst = os.path.join(scratch, 'repo')
         shutil.copytree('/repo', dst, ignore=shutil.ignore_patterns('.git', '__pycache__', '*.egg-info', 'examples', 'images', 'docs'))
-        path = os.path.join(dst, m['file'])
-        src = open(path).read()
-        if src.count(m['old']) < 1:
-            return dict(id=m['id'], status='STALE', detail='pattern not found')
-        src = src.replace(m['old'], m['new'], m.get('count', 1))
-        open(path, 'w').write(src)
+        edits = [(m['file'], m['old'], m['new'], m.get('count', 1))] + [(e[0], e[1], e[2], 1) for e in m.get('more', [])]
+        for fname, old, new_, cnt in edits:
+            path = os.path.join(dst, fname)
+            src = open(path).read()
+            if src.count(old) < 1:
+                return dict(id=m['id'], status='STALE', detail='pattern not found')
+            src = src.replace(old, new_, cnt)
+            open(path, 'w').write(src)
         tests_ok = None
         if with_tests:
             r = subprocess.run(['/venv/bin/python', '-m', 'pytest', '-q', '-x', '-p', 'no:cacheprovider', '-n', '4'], cwd=dst,
